@@ -42,8 +42,8 @@ theorem codon_by_codon : ∀ id ∈ Spec.Ncbi.ids,
     | nil => exact absurd h this
     | cons a as => simp [emptyTable, h]
   have hb : byteLen p.1 = 3 := by rw [byteLen_ascii (all64_ascii p.1 hc), h3]
-  simp only [translate, hne, hb, translateCore]
-  rw [loop_chunks _ _ _ (all64_ascii p.1 hc)]
+  simp only [translate, hne, hb]
+  rw [translateCore_eq_chunks _ _ (all64_ascii p.1 hc)]
   match hp1 : p.1, h3 with
   | [x, y, z], _ =>
     have := (hcells p hp).2
@@ -90,10 +90,7 @@ theorem reweight_wf (f : Str → Str → Int → Int) (t : Table) (h : WFTable t
 
 /-- the translation is the concatenation, in order, of the residues of the complete in-frame codons -/
 theorem translate_chunks (t : Table) (s : Str) (hs : Ascii s) :
-    translateCore t s = (chunks3 s).flatMap (aaOf t) := by
-  simp only [translateCore]
-  rw [loop_chunks _ _ _ hs, List.nil_append]
-  rfl
+    translateCore t s = (chunks3 s).flatMap (aaOf t) := translateCore_eq_chunks t s hs
 
 /-- a concatenation made at a codon boundary translates to the concatenation of the translations -/
 theorem translate_append (t : Table) (a b : Str) (ha : Ascii a) (hb : Ascii b) (h3 : a.length % 3 = 0) :
